@@ -489,6 +489,29 @@ fn fib_op(w: &mut World, op: &Val) {
         }
         9 => w.tm.soft_reset_in(peer_addr(op.at(1).u32())),
         10 => w.tm.unregister_peer(peer_addr(op.at(1).u32()), &fams, &[]),
+        11 => {
+            // insert under a prefix limit: [11, peer, sess, kind, id, pid, nh, tok, max, counter]
+            let s = w.src(op.at(1).u32(), op.at(2).u32());
+            let (f, n) = mk_net(op.at(3).u32(), op.at(4).u32());
+            let nh = op.at(6).list().first().map(nh_of_val);
+            let tok = op.at(7).u32();
+            let attr = w.attrs.iter().find(|(t, _)| *t == tok).expect("attr token").1.clone();
+            let ctr = Arc::new(std::sync::atomic::AtomicU64::new(op.at(9).u32() as u64));
+            w.tm.insert_route(
+                s,
+                f,
+                packet::PathNlri {
+                    nlri: n,
+                    path_id: op.at(5).u32(),
+                },
+                nh,
+                attr,
+                Some((op.at(8).u32(), ctr)),
+                0,
+            );
+        }
+        12 => w.tm.start_deferral_families(&[mk_net(op.at(1).u32(), 1).0]),
+        13 => w.tm.end_deferral_families(&[mk_net(op.at(1).u32(), 1).0]),
         _ => panic!("verif: unknown op"),
     }
 }
